@@ -1,0 +1,239 @@
+//! Hook for the module-graph check (C17): the binding structure of a module's
+//! source, taken from the real parser instead of a textual approximation.
+//!
+//! For every statement of the source, in order, one line:
+//!   `u:<module path>`                      a `use`
+//!   `d:<names>~<free identifiers>`         any other statement
+//! `<names>`: what the statement introduces (with `@aliases`), `v:` value
+//! namespace (let / fn / unit) or `t:` type namespace (dimension / struct).
+//! `<free identifiers>`: identifiers the statement refers to that it does not bind
+//! itself (function parameters and where-locals, type parameters, the function's
+//! own name): `v:x` in expression position, `t:X` in type position.
+//! Both lists are comma separated, in order of first occurrence, without repeats.
+
+use crate::ast::{
+    DefineVariable, Expression, Statement, StringPart, TypeAnnotation, TypeExpression,
+};
+use crate::decorator;
+use crate::parser::parse;
+
+struct Free {
+    out: Vec<String>,
+}
+
+impl Free {
+    fn add(&mut self, ns: &str, name: &str, bound: &[&str]) {
+        if bound.contains(&name) {
+            return;
+        }
+        let s = format!("{ns}:{name}");
+        if !self.out.contains(&s) {
+            self.out.push(s);
+        }
+    }
+
+    fn expr(&mut self, e: &Expression, bv: &[&str], bt: &[&str]) {
+        match e {
+            Expression::Scalar(..) | Expression::Boolean(..) | Expression::TypedHole(_) => {}
+            Expression::Identifier(_, name) => self.add("v", name, bv),
+            Expression::UnitIdentifier { full_name, .. } => self.add("v", full_name, bv),
+            Expression::UnaryOperator { expr, .. } => self.expr(expr, bv, bt),
+            Expression::BinaryOperator { lhs, rhs, .. } => {
+                self.expr(lhs, bv, bt);
+                self.expr(rhs, bv, bt);
+            }
+            Expression::FunctionCall { callable, args, .. } => {
+                self.expr(callable, bv, bt);
+                for a in args {
+                    self.expr(a, bv, bt);
+                }
+            }
+            Expression::String(_, parts) => {
+                for p in parts {
+                    if let StringPart::Interpolation { expr, .. } = p {
+                        self.expr(expr, bv, bt);
+                    }
+                }
+            }
+            Expression::Condition {
+                condition,
+                then_expr,
+                else_expr,
+                ..
+            } => {
+                self.expr(condition, bv, bt);
+                self.expr(then_expr, bv, bt);
+                self.expr(else_expr, bv, bt);
+            }
+            Expression::InstantiateStruct { name, fields, .. } => {
+                self.add("t", name, bt);
+                for (_, _, f) in fields {
+                    self.expr(f, bv, bt);
+                }
+            }
+            Expression::AccessField { expr, .. } => self.expr(expr, bv, bt),
+            Expression::List(_, elements) => {
+                for x in elements {
+                    self.expr(x, bv, bt);
+                }
+            }
+        }
+    }
+
+    fn annotation(&mut self, a: &TypeAnnotation, bt: &[&str]) {
+        match a {
+            TypeAnnotation::TypeExpression(t) => self.type_expr(t, bt),
+            TypeAnnotation::Bool(_) | TypeAnnotation::String(_) | TypeAnnotation::DateTime(_) => {}
+            TypeAnnotation::Fn(_, params, ret) => {
+                for p in params {
+                    self.annotation(p, bt);
+                }
+                self.annotation(ret, bt);
+            }
+            TypeAnnotation::List(_, inner) => self.annotation(inner, bt),
+        }
+    }
+
+    fn type_expr(&mut self, t: &TypeExpression, bt: &[&str]) {
+        match t {
+            TypeExpression::Unity(_) => {}
+            TypeExpression::TypeIdentifier(_, name, args) => {
+                self.add("t", name, bt);
+                for a in args {
+                    self.annotation(a, bt);
+                }
+            }
+            TypeExpression::Multiply(_, a, b) | TypeExpression::Divide(_, a, b) => {
+                self.type_expr(a, bt);
+                self.type_expr(b, bt);
+            }
+            TypeExpression::Power(_, a, _, _) => self.type_expr(a, bt),
+        }
+    }
+}
+
+fn names(ns: &str, name: &str, decorators: &[decorator::Decorator]) -> Vec<String> {
+    let mut v: Vec<String> = Vec::new();
+    for (n, _) in decorator::name_and_aliases(name, decorators) {
+        let s = format!("{ns}:{n}");
+        if !v.contains(&s) {
+            v.push(s);
+        }
+    }
+    v
+}
+
+fn item(defined: Vec<String>, free: Free) -> String {
+    format!("d:{}~{}", defined.join(","), free.out.join(","))
+}
+
+/// See the module documentation. `ERR` if the source does not parse.
+pub fn module_items(src: &str) -> String {
+    let statements = match parse(src, 0) {
+        Ok(s) => s,
+        Err(_) => return "ERR".into(),
+    };
+    let mut lines = Vec::new();
+    for st in &statements {
+        let mut f = Free { out: vec![] };
+        match st {
+            Statement::ModuleImport(_, path) => {
+                lines.push(format!("u:{}", path.0.join("::")));
+            }
+            Statement::Expression(e) => {
+                f.expr(e, &[], &[]);
+                lines.push(item(vec![], f));
+            }
+            Statement::ProcedureCall(_, _, args) => {
+                for a in args {
+                    f.expr(a, &[], &[]);
+                }
+                lines.push(item(vec![], f));
+            }
+            Statement::DefineVariable(DefineVariable {
+                identifier,
+                expr,
+                type_annotation,
+                decorators,
+                ..
+            }) => {
+                f.expr(expr, &[], &[]);
+                if let Some(a) = type_annotation {
+                    f.annotation(a, &[]);
+                }
+                lines.push(item(names("v", identifier, decorators), f));
+            }
+            Statement::DefineFunction {
+                function_name,
+                type_parameters,
+                parameters,
+                body,
+                local_variables,
+                return_type_annotation,
+                decorators,
+                ..
+            } => {
+                let bt: Vec<&str> = type_parameters.iter().map(|(_, n, _)| *n).collect();
+                let mut bv: Vec<&str> = parameters.iter().map(|(_, n, _)| *n).collect();
+                bv.extend(local_variables.iter().map(|d| d.identifier));
+                bv.push(function_name);
+                for (_, _, a) in parameters {
+                    if let Some(a) = a {
+                        f.annotation(a, &bt);
+                    }
+                }
+                if let Some(a) = return_type_annotation {
+                    f.annotation(a, &bt);
+                }
+                if let Some(b) = body {
+                    f.expr(b, &bv, &bt);
+                }
+                for d in local_variables {
+                    f.expr(&d.expr, &bv, &bt);
+                    if let Some(a) = &d.type_annotation {
+                        f.annotation(a, &bt);
+                    }
+                }
+                lines.push(item(names("v", function_name, decorators), f));
+            }
+            Statement::DefineDimension(_, name, exprs) => {
+                for t in exprs {
+                    f.type_expr(t, &[]);
+                }
+                lines.push(item(vec![format!("t:{name}")], f));
+            }
+            Statement::DefineBaseUnit(_, name, dexpr, decorators) => {
+                if let Some(t) = dexpr {
+                    f.type_expr(t, &[]);
+                }
+                lines.push(item(names("v", name, decorators), f));
+            }
+            Statement::DefineDerivedUnit {
+                identifier,
+                expr,
+                type_annotation,
+                decorators,
+                ..
+            } => {
+                f.expr(expr, &[], &[]);
+                if let Some(a) = type_annotation {
+                    f.annotation(a, &[]);
+                }
+                lines.push(item(names("v", identifier, decorators), f));
+            }
+            Statement::DefineStruct {
+                struct_name,
+                type_parameters,
+                fields,
+                ..
+            } => {
+                let bt: Vec<&str> = type_parameters.iter().map(|(_, n, _)| *n).collect();
+                for (_, _, a) in fields {
+                    f.annotation(a, &bt);
+                }
+                lines.push(item(vec![format!("t:{struct_name}")], f));
+            }
+        }
+    }
+    lines.join("\n")
+}
